@@ -1,5 +1,4 @@
 //@weave-into write-fonts/src/font_builder.rs
-//@modpath -
 // C06 FontBuilder::build on ONE table with a symbolic tag and symbolic contents (U06.7, bounded): the table directory record
 // points at the payload, the payload bytes come out unchanged - except bytes 8..12 of a table tagged exactly 'head', which
 // carry the checksum adjustment that makes the whole-file checksum 0xB1B0AFBA - and the file is padded to 4 bytes.
